@@ -122,15 +122,14 @@ def aggr_assigns(body, adt_suffix, variant=None):
 # idiom-level helpers (each accepts the equivalent spellings a maintainer may choose)
 # ---------------------------------------------------------------------------------------------------------------
 def opt_is(atom, pred, variant):
-    """atom asserts that the Option term selected by pred is `variant` ('Some' | 'None'):
-    is_some()/is_none() tests, `if let` / `match` discriminant tests"""
-    want_some = variant == 'Some'
-    if atom[0] in ('T', 'F') and M.is_call(atom[1], 'is_some', 'is_none') and pred(atom[1][2][0]):
-        is_some_call = atom[1][1].endswith('is_some')
-        return (atom[0] == 'T') == (is_some_call == want_some)
-    if atom[0] == 'in' and pred(atom[1]) and atom[2] == frozenset([variant]):
-        return True
-    return False
+    """atom asserts that the Option term selected by pred is `variant` ('Some' | 'None'): is_some() / is_none() / matches! tests and
+    `if let` / `match` discriminant tests all arrive as ('in', o, {variant}) atoms (mirlib: isvar normal form)"""
+    return atom[0] == 'in' and pred(atom[1]) and atom[2] == frozenset([variant])
+
+
+def is_variant_test(t, pred, variant):
+    """boolean TERM `o is <variant>` (o.is_none(), matches!(o, None), match o {None => true, _ => false}) with pred(o)"""
+    return isinstance(t, tuple) and t and t[0] == 'isvar' and pred(t[1]) and t[2] == frozenset([variant])
 
 
 def ord_names(atoms, pred):
@@ -296,3 +295,76 @@ def is_max_const(t):
 
 def is_min_const(t):
     return M.is_const(t) and (t[2] or '').endswith('MIN')
+
+
+# ---------------------------------------------------------------------------------------------------------------
+# decision tables by case analysis: a finite set of case variables (terms selected by predicates) gets concrete values; literals
+# and result terms are evaluated under the case (used where a rule must hold "exactly when", not only "only when")
+# ---------------------------------------------------------------------------------------------------------------
+def case_eval(t, env):
+    """value (bool / int / variant name) of term t under env = [(predicate, value)]; None when unknown"""
+    for (pred, v) in env:
+        if pred(t):
+            return v
+    if not isinstance(t, tuple) or not t:
+        return None
+    k = t[0]
+    if k == 'const':
+        return t[1] if isinstance(t[1], (bool, int)) else None
+    if k == 'aggr' and t[2] is not None and not str(t[2]).isdigit() and not t[3]:
+        return t[2]
+    if k == 'not':
+        a = case_eval(t[1], env)
+        return None if a is None else (not a)
+    if k == 'cmp':
+        a, b = case_eval(t[2], env), case_eval(t[3], env)
+        if a is None or b is None:
+            return None
+        try:
+            return {'Eq': a == b, 'Ne': a != b, 'Lt': a < b, 'Le': a <= b, 'Gt': a > b, 'Ge': a >= b}[t[1]]
+        except TypeError:
+            return None
+    if k == 'bin' and t[1] in ('BitAnd', 'BitOr'):
+        a, b = case_eval(t[2], env), case_eval(t[3], env)
+        if t[1] == 'BitAnd':
+            return False if (a is False or b is False) else (True if (a is True and b is True) else None)
+        return True if (a is True or b is True) else (False if (a is False and b is False) else None)
+    if k == 'ite':
+        c = case_feasible(M.lit_atoms(t[1]), env, strict=True)
+        return None if c is None else case_eval(t[2] if c else t[3], env)
+    return None
+
+
+def case_feasible(atoms, env, strict=False):
+    """False if some atom is false under the case; atoms that do not depend on the case variables are ignored (strict: they make the
+    answer None)"""
+    unknown = False
+    for a in atoms:
+        v = None
+        if a[0] in ('T', 'F'):
+            x = case_eval(a[1], env)
+            v = None if not isinstance(x, bool) else (x == (a[0] == 'T'))
+        elif a[0] == 'in':
+            x = case_eval(a[1], env)
+            v = None if x is None else (x in a[2])
+        elif a[0] == 'cmp':
+            x, y = case_eval(a[1], env), case_eval(a[2], env)
+            if x is not None and y is not None:
+                try:
+                    rel = '<' if x < y else ('=' if x == y else '>')
+                    v = rel in a[3]
+                except TypeError:
+                    v = (x == y) if a[3] == frozenset('=') else ((x != y) if a[3] == frozenset('<>') else None)
+        elif a[0] == 'eqc':
+            x = case_eval(a[1], env)
+            v = None if x is None else (x == a[2])
+        elif a[0] == 'nec':
+            x = case_eval(a[1], env)
+            v = None if x is None else (x not in a[2])
+        elif a[0] == 'const':
+            v = bool(a[1])
+        if v is False:
+            return False
+        if v is None:
+            unknown = True
+    return None if (strict and unknown) else True
